@@ -238,8 +238,13 @@ def run_check(a, prop, spec, workdir, seed, t_start):
             else:
                 v['native'] = st
                 if v['kind'] == 'uninit' and st in ('ok', 'assume'):
-                    ubn.append(v)        # read of uninitialised memory the sanitizers cannot see: reported as a note
-                elif st in ('assert', 'sanitizer') or st.startswith('crash') or (st == 'timeout' and v['kind'] == 'nontermination'):
+                    # a path ended on a read of uninitialised memory that the native run (ASan cannot see such reads, and a
+                    # schedule-dependent one may simply not occur) does not show: the rest of that path was not explored,
+                    # so this is "could not decide" (exit 3), never success
+                    ubn.append(v)
+                    v['native_output'] = out[-600:]
+                    unconfirmed.append((key, v))
+                elif st in ('assert', 'sanitizer') or st.startswith('crash') or (st == 'timeout' and v['kind'] in ('nontermination', 'deadlock')):
                     v['native_output'] = out[-1500:]
                     confirmed.append((key, v))
                 else:
